@@ -141,11 +141,11 @@ func (w whRepo) UpdateWebhook(x *notification.Webhook) error {
 // fixture is the observable content of the store: a small forked history, tokens, a webhook.
 type fixture struct {
 	tip, stale, anc, genesis, unknownHash string
-	tipMR, staleMR, unknownMR            string
-	tipHeight, staleHeight               int
-	user, revoked, victim, unknownTok    string
-	hookURL                              string
-	fresh                                int
+	tipMR, staleMR, unknownMR             string
+	tipHeight, staleHeight                int
+	user, revoked, victim, unknownTok     string
+	hookURL                               string
+	fresh                                 int
 }
 
 type env struct {
